@@ -142,12 +142,8 @@ class ValidatorModel:
         return res
 
     def _is_value(self, e):
-        cur = e
-        for _ in range(6):
-            if cur.k in ("ref", "deref"):
-                cur = cur.a[0]
-            else:
-                break
+        from kernel import unmut
+        cur = unmut(e)
         return cur.k == "param" and cur.a[0] == 2
 
     def _after_consumer(self, site, classes):
